@@ -17,7 +17,11 @@ def main():
     from axv import props
     if a.replay:
         return props.replay(a.prop, a.replay)
-    return props.run(a.prop, a.tier, seed, t0)
+    rc = props.run(a.prop, a.tier, seed, t0)
+    if os.environ.get("AXV_EXPORT_CACHE"):
+        from axv import kanirun
+        print("exported %d cache entries" % kanirun.export_used())
+    return rc
 
 
 if __name__ == "__main__":
